@@ -202,7 +202,36 @@ def make_mixed(ch, params):
     return m, script, {'nontrivial_fn': nt_be, 'ninst': 1, 'classes': {'mixed_widths_in_one_body': 1}, 'independent': True}
 
 
+def _wasi_module(name):
+    from . import c12, c13, c14, c15
+    return {'C12': c12, 'C13': c13, 'C14': c14, 'C15': c15}[name]
+
+
+def wasi_task(wid, seed, params):
+    """the WASI host on the forced big-endian runtime: wasi.c moves every structured value (iovec arrays, result cells, stat / fdstat /
+    prestat records, directory entries, argument pointer arrays, clock values) through the runtime's accessors, so the histories
+    of C12-C15 must give the same results when every agent is built with -DWASM_ENDIAN=1 and the executor reads and writes guest
+    structures in the mirrored layout (byte buffers - file data, names - unchanged).  A host-side struct copied into guest memory,
+    a field stored with the wrong width or a swap applied to a byte buffer shows up as a wrong field value or a wrong byte."""
+    from .. import wasi as W
+    mod = _wasi_module(params['wasi'])
+    W.FORCE_VARIANT = 'be'
+    try:
+        r = mod.task(wid, seed, params['inner'])
+    finally:
+        W.FORCE_VARIANT = None
+    for v in r['violations']:
+        v['signature'] = 'c19-wasi:' + v['signature']
+        v['summary'] = '[WASI host of %s on the forced big-endian runtime] %s' % (params['wasi'], v['summary'])
+        v['replay'] = {'kind': 'c19-wasi', 'wasi': params['wasi'], 'inner': v['replay']}
+    r['classes'] = collections.Counter(dict(('be_wasi_' + k, n) for k, n in r['classes'].items()))
+    r['nontrivial'] = set('be-wasi:' + str(h) for h in r['nontrivial'])
+    return r
+
+
 def dispatch(wid, seed, params):
+    if params.get('wasi'):
+        return wasi_task(wid, seed, params)
     if params.get('const'):
         return const_task(wid, seed, params)
     if params.get('stress'):
@@ -219,6 +248,13 @@ def dispatch(wid, seed, params):
 
 
 def replay(rp):
+    if rp.get('kind') == 'c19-wasi':
+        from .. import wasi as W
+        W.FORCE_VARIANT = 'be'
+        try:
+            return _wasi_module(rp['wasi']).replay(rp['inner'])
+        finally:
+            W.FORCE_VARIANT = None
     if rp.get('kind') == 'c19-const':
         wb = bytes.fromhex(rp['module_hex'])
         m = wasm.decode(wb)
@@ -239,6 +275,16 @@ def replay(rp):
     return f1.case_replay(rp)
 
 
+WASI_JOBS_QUICK = [{'wasi': 'C12', 'inner': {'examples': 250, 'steps': 30}} for _ in range(3)] + \
+    [{'wasi': 'C13', 'inner': {'examples': 200, 'steps': 30}} for _ in range(2)] + \
+    [{'wasi': 'C14', 'inner': {'examples': 300, 'steps': 25}} for _ in range(3)] + \
+    [{'wasi': 'C15', 'inner': {'ncases': 100, 'kinds': ['args', 'misc']}} for _ in range(2)]
+WASI_JOBS_THOROUGH = [{'wasi': 'C12', 'inner': {'examples': 3000, 'steps': 50}} for _ in range(6)] + \
+    [{'wasi': 'C13', 'inner': {'examples': 3000, 'steps': 50}} for _ in range(4)] + \
+    [{'wasi': 'C14', 'inner': {'examples': 3000, 'steps': 50}} for _ in range(6)] + \
+    [{'wasi': 'C15', 'inner': {'ncases': 2000, 'kinds': ['args', 'misc']}} for _ in range(4)]
+
+
 def plan(tier, seed):
     if tier == 'quick':
         n1, n2 = 24, 24
@@ -248,6 +294,7 @@ def plan(tier, seed):
         jobs += [{'const': True, 'ncases': 6, 'nconst': 300} for _ in range(6)]
         jobs += [{'maker': 'c19_mixed', 'ncases': 10, 'ccs': BE_OPT_CCS, 'shrink_budget': 20, 'reduce_budget': 20} for _ in range(6)]
         jobs += [{'stress': True, 'ncases': 8, 'builds': ['gcc-O2-be', 'clang-O2-be']} for _ in range(4)]
+        jobs += WASI_JOBS_QUICK
         return jobs
     jobs = [{'maker': 'c19_mem', 'ncases': 150, 'ccs': BE_CCS + LE_CCS, 'nsteps': 300, 'shrink_budget': 30, 'reduce_budget': 20} for _ in range(20)]
     jobs += [{'maker': 'c19_atomic', 'ncases': 150, 'ccs': BE_CCS + LE_CCS, 'nsteps': 300, 'shrink_budget': 30, 'reduce_budget': 20} for _ in range(20)]
@@ -255,6 +302,7 @@ def plan(tier, seed):
     jobs += [{'const': True, 'ncases': 100, 'nconst': 600} for _ in range(12)]
     jobs += [{'maker': 'c19_mixed', 'ncases': 150, 'ccs': BE_OPT_CCS + LE_CCS, 'shrink_budget': 30, 'reduce_budget': 30} for _ in range(12)]
     jobs += [{'stress': True, 'ncases': 100, 'builds': ['gcc-O2-be', 'clang-O2-be']} for _ in range(8)]
+    jobs += WASI_JOBS_THOROUGH
     return jobs
 
 
